@@ -167,7 +167,7 @@ theorem indexLoop_spec (strip : Int) (ms : List Member) (b : Option (List ADoc))
       simp only [if_true, Option.getD_some, stripComponents, stripLoop_spec, docOf]
       by_cases hr : hasReg rest = true
       · simp only [hr, if_true, Option.some.injEq]
-        split <;> simp
+        by_cases hs : specStrip m.name strip.toNat = [] <;> simp [hs]
       · have hr' : hasReg rest = false := by simpa using hr
         have hnil : specArchiveDocs strip rest = [] := by
           rw [specArchiveDocs_eq]
@@ -178,6 +178,6 @@ theorem indexLoop_spec (strip : Int) (ms : List Member) (b : Option (List ADoc))
             simpa using hr' x hx
           simp [this]
         simp only [hr', hnil, Option.some.injEq]
-        split <;> simp
+        by_cases hs : specStrip m.name strip.toNat = [] <;> simp [hs]
 
 end ZoektModel.C15
